@@ -16,6 +16,7 @@ logged rewrite rules.
 
 A *unit template* (contracts/<unit>.vtmpl) is a Verus file with directives
     //@include <file under /verif>
+    (rule D15: module constants a verified body uses are extracted automatically)
     //@include-swap <A> => <B>        later includes of A (at any depth) read B instead
     //@item <src file> <struct|enum|const|type> <Name>     real definition, visibility/attrs stripped
     //@fn <Key>            the real function with its contract and body
@@ -983,6 +984,48 @@ class Unit:
         self.fn_spans = []      # dict(key, mode, start, end, contract)
         self.include_map = {}
         self._expand(self.tmpl_rel, 0)
+        self._pull_consts()
+
+    def _pull_consts(self):
+        """rule D15: a module-level `const NAME: T = expr;` of the SAME source file that a function verified on its real body uses,
+        and that the unit does not define, is extracted verbatim and placed at the top of the verus! block (constants are pure;
+        without this a change that introduces a named constant ends in `cannot find value` = undecided)."""
+        for _round in range(8):
+            text = self.text()
+            defined = set(re.findall(r'\b(?:const|static)\s+([A-Z][A-Z0-9_]*)\b', text))
+            done = True
+            for sp in self.fn_spans:
+                if sp['mode'] != 'body':
+                    continue
+                srel = sp['contract'].src_file
+                body = '\n'.join(l.text for l in self.lines[sp['start'] - 1:sp['end']] if l.origin[0] != 'T')
+                for nm in sorted(set(re.findall(r'(?<![:\w.])([A-Z][A-Z0-9_]{2,})\b(?!\s*(?:::|!|\())', mask(body)))):
+                    if nm in defined:
+                        continue
+                    S = source(srel)
+                    hits = [m for m in re.finditer(r'(?m)^(pub(\([a-z]+\))?\s+)?const\s+' + nm + r'\b', S.masked) if not S.in_test(m.start())]
+                    if len(hits) != 1:
+                        continue
+                    ls, prov = build_item(srel, 'const', nm, self.rewrites)
+                    w = dict(rule='D15', where='%s: const %s' % (srel, nm), before='(module constant used by %s)' % sp['key'], after='extracted with the function')
+                    prov['rewrites'].append(w)
+                    self.rewrites.append(w)
+                    # items of a module may refer to each other in any order: the constant goes to the top of the verus! block
+                    at = next((i + 1 for i, l in enumerate(self.lines) if l.text.strip() == 'verus! {'), None)
+                    if at is None:
+                        return
+                    self.lines[at:at] = ls
+                    for sp2 in self.fn_spans:
+                        if sp2['start'] - 1 >= at:
+                            sp2['start'] += len(ls)
+                            sp2['end'] += len(ls)
+                    self.prov.append(prov)
+                    done = False
+                    break
+                if not done:
+                    break
+            if done:
+                return
 
     def _expand(self, rel, depth):
         if depth > 5:
